@@ -101,6 +101,8 @@ DEFAULT = {
     'beta': 1,              # setBetaBinary(functionType): 1 = Perez et al. (default), 2 = as for multicomponent systems
     'effdist': None,        # enableEffectiveDiffusionDistance(<bool>); None = leave kawin's default (enabled)
     'theta': None,          # setTheta(<float>): scaling of the incubation time; None = kawin's default (2)
+    'between': None,        # {'minRadius': r}: setConstraints(minRadius=r) between consecutive solve calls of a split run (a population
+                            # below the new threshold is discarded at once; its solute has to be back in the matrix)
     'strain': None,         # {phase name: {'eig': [e11, e22, e33], 'calc': bool}}: elastic strain energy per phase (travels with
                             # the phase name); calc=True makes the aspect ratio follow from the strain energy (needle shape)
 }
@@ -329,6 +331,8 @@ def run_model(cfg, monitor=True, hooks=True, therm_pack=None):
         for k in range(parts):
             m.solve(tf / parts, solverType=it, **c['solve'])
             segs.append(m.pData.n)
+            if c.get('between') and k < parts - 1:
+                m.setConstraints(**c['between'])
     except StepLimit:
         err = ('StepLimit', 'more than %d accepted steps' % c['max_steps'])
     except Exception as e:   # exceptions of the code under test are data for the checks
